@@ -38,7 +38,8 @@ Definition with_slice (sl : selslots) v := Slots (s_sort sl) (s_proj sl) (s_dedu
 (* Select.strip *)
 Definition strip (s : tree) : tree * bool :=
   let sl := sel_slots s in
-  if negb (has_dedup sl) && negb (has_sort sl) && negb (has_slice sl) then (sel_skip s, has_proj sl) else (s, false).
+  if negb (has_dedup sl) && negb (has_sort sl) && negb (has_slice sl) && negb (sel_compound s)
+  then (sel_skip s, has_proj sl) else (s, false).
 
 (* operation._finish_apply(select): a Select is not a UnaryOperationRelation, so no simplification *)
 Definition nest_unary (o : uop) (s : tree) : result tree :=
@@ -50,7 +51,7 @@ Fixpoint append_unary_sel (o : uop) (s : tree) {struct s} : result tree :=
   | SelM sl skip tgt =>
       match o with
       | Calc tag e =>
-          if is_chain skip then nest_unary o s
+          if is_chain skip || bool_decide (tag ∈ columns skip) then nest_unary o s
           else do k <- finish_apply o skip;
                if has_proj sl then apply_skip (with_proj sl (Some (columns s ∪ {[tag]}))) k
                else apply_skip sl k
@@ -59,6 +60,9 @@ Fixpoint append_unary_sel (o : uop) (s : tree) {struct s} : result tree :=
           else if has_slice sl then apply_skip (with_dedup no_slots true) s
           else apply_skip (with_dedup sl true) skip
       | Proj cs =>
+          if has_sort sl && negb (bool_decide (op_required (Sort (s_sort sl)) ⊆ cs)) && (has_dedup sl || is_chain skip)
+          then (if has_slice sl then apply_skip (with_proj no_slots (Some cs)) s else Err OrderLoss)
+          else
           if has_dedup sl then
             do sub <- apply_skip (with_slice (with_sort sl []) (0, None)) skip;
             apply_skip (Slots (s_sort sl) (Some cs) false (s_slice sl)) sub
@@ -129,7 +133,7 @@ Fixpoint conform (t : tree) : result tree :=
 (* sql.Engine.materialize / transfer / leaves *)
 Definition sql_materialize (name : positive) (t : tree) : result tree :=
   do c <- conform t;
-  if order_loss c then Err OrderLoss else select_of (materialize_generic name c).
+  if order_loss c then Err OrderLoss else conform (materialize_generic name c).
 
 Definition sql_transfer (conform_src : tree -> result tree) (dest : engine) (t : tree) : result tree :=
-  do x <- transfer_generic conform_src dest t; select_of x.
+  do x <- transfer_generic conform_src dest t; conform x.
